@@ -38,11 +38,22 @@ const chainID = "verif-genesis"
 
 const counterSrc = `package counter
 
+import (
+	"chain/runtime"
+	"strconv"
+	"time"
+)
+
 var n int
 var log []string
 
 func Add(cur realm, k int) int { n += k; log = append(log, "add"); return n }
 func Fail(cur realm)           { n = 999; panic("genesis failure") }
+
+// Stamp records the block time and height the transaction ran under (genesis tx metadata can override both)
+func Stamp(cur realm) {
+	log = append(log, "t="+strconv.FormatInt(time.Now().Unix(), 10)+"/h="+strconv.FormatInt(runtime.ChainHeight(), 10))
+}
 func Render(path string) string {
 	s := ""
 	for _, l := range log {
@@ -87,22 +98,49 @@ func buildGenesis(rng *rand.Rand) (gnoland.GnoGenesisState, map[string]any) {
 	}
 	desc["balances"] = len(gs.Balances)
 	fee := std.Fee{GasWanted: 100_000_000, GasFee: std.Coin{Denom: "ugnot", Amount: 1_000_000}}
+	metaKinds := map[string]int{}
+	// every genesis tx carries one of the metadata shapes the InitChainer distinguishes (none / timestamp override /
+	// failed-on-source (skipped) / historical with height override / migration-style provenance only)
 	add := func(msgs ...std.Msg) {
-		gs.Txs = append(gs.Txs, gnoland.TxWithMetadata{Tx: std.Tx{Msgs: msgs, Fee: fee, Signatures: []std.Signature{{}}}})
+		var md *gnoland.GnoTxMetadata
+		kind := "none"
+		switch k := rng.Intn(20); {
+		case k < 8:
+		case k < 11:
+			kind = "timestamp"
+			md = &gnoland.GnoTxMetadata{Timestamp: int64(1_600_000_000 + rng.Intn(1000))}
+		case k < 13:
+			kind = "failed"
+			md = &gnoland.GnoTxMetadata{Timestamp: int64(1_600_000_000 + rng.Intn(1000)), Failed: true}
+		case k < 16:
+			kind = "historical"
+			md = &gnoland.GnoTxMetadata{Timestamp: int64(1_500_000_000 + rng.Intn(1000)), BlockHeight: int64(10 + rng.Intn(90)), GasUsed: int64(rng.Intn(100000)), GasWanted: 100_000_000, Source: gnoland.SourceHistorical}
+		case k < 18:
+			kind = "historical-failed"
+			md = &gnoland.GnoTxMetadata{Timestamp: int64(1_500_000_000 + rng.Intn(1000)), BlockHeight: int64(10 + rng.Intn(90)), Failed: true, Source: gnoland.SourceHistorical}
+		default:
+			kind = "provenance-only"
+			md = &gnoland.GnoTxMetadata{Source: gnoland.SourceMigration, Note: "verif"}
+		}
+		metaKinds[kind]++
+		gs.Txs = append(gs.Txs, gnoland.TxWithMetadata{Tx: std.Tx{Msgs: msgs, Fee: fee, Signatures: []std.Signature{{}}}, Metadata: md})
 	}
 	pkgs := []appenv.Pkg{
 		{Path: "gno.land/r/verif/gcounter", Files: map[string]string{"counter.gno": strings.Replace(counterSrc, "package counter", "package gcounter", 1)}},
 		{Path: "gno.land/p/verif/glib", Files: map[string]string{"lib.gno": strings.Replace(libSrc, "package lib", "package glib", 1)}},
 		{Path: "gno.land/r/verif/guser", Files: map[string]string{"user.gno": strings.Replace(userSrc, "package user", "package guser", 1)}},
 	}
-	np := rng.Intn(4)
+	np := []int{0, 1, 2, 3, 3, 3}[rng.Intn(6)] // mostly all three packages, sometimes a missing dependency
 	for i := 0; i < np; i++ {
 		add(appenv.AddPkgMsg(deployer.Addr, pkgs[i]))
 	}
 	desc["packages"] = np
 	kinds := []string{}
-	for i, n := 0, rng.Intn(5); i < n; i++ {
-		switch rng.Intn(5) {
+	for i, n := 0, rng.Intn(8); i < n; i++ {
+		switch rng.Intn(7) {
+		case 5, 6:
+			add(vm.NewMsgCall(deployer.Addr, nil, "gno.land/r/verif/gcounter", "Stamp", nil))
+			kinds = append(kinds, "stamp")
 		case 0:
 			add(vm.NewMsgCall(deployer.Addr, nil, "gno.land/r/verif/gcounter", "Add", []string{fmt.Sprint(1 + rng.Intn(9))}))
 			kinds = append(kinds, "call")
@@ -121,6 +159,7 @@ func buildGenesis(rng *rand.Rand) (gnoland.GnoGenesisState, map[string]any) {
 		}
 	}
 	desc["txs"] = kinds
+	desc["metadata"] = metaKinds
 	// parameter overrides
 	if rng.Intn(2) == 0 {
 		gs.Auth.Params.MaxMemoBytes = int64(1000 + rng.Intn(5000))
